@@ -440,3 +440,15 @@ def run(ck):
         c05_2(ck, prog)
         c05_3(ck, prog)
         c05_4(ck, prog)
+        r = ck.rule('C05.7', 'the bus state a message is routed by outlives every operation: the name registry, the '
+                    'pending-activation table and the activation object are created once and released only by their '
+                    'owners\' destructors', 'WHO',
+                    breaks='after a reload (or any operation that recreated a container) a held or addressed message '
+                    'is neither delivered nor answered', floor=4)
+        lib.state_lifetime(prog, r, [('BusActivation', 'pending_activations'), ('BusContext', 'activation'),
+                                     ('BusRegistry', 'service_hash'), ('BusContext', 'registry')])
+        from rules import listshape
+        r = ck.rule('C05.8', 'the list primitives behind every FIFO of the bus (outgoing queues, transactions, recipient '
+                    'lists) keep the ring intact and insert at the position asked for (shape analysis shared with '
+                    'C04.9)', 'ABS', breaks='messages are reordered or lost inside a queue', floor=5)
+        listshape.check(prog, r)
